@@ -59,13 +59,9 @@ Section Arr.
     eexists. split; [reflexivity|]. split; assumption.
   Qed.
 
-  Definition resized_arr_spec (arr : arr2d B) (r0 r1 : Z) (mpv : Z) : arr2d B :=
-    let m' := resize_spec (negb (mpv =? 0)) (snd arr) r0 r1 in
-    (zip_mask zero (resize_spec zero (fst arr) r0 r1) m', m').
-
   Lemma resized_arr_spec_entries (arr : arr2d B) H W f g r0 r1 mpv :
     EntriesA arr H W f g -> 0 <= r0 -> 0 <= r1 ->
-    EntriesA (resized_arr_spec arr r0 r1 mpv) r0 r1
+    EntriesA (resized_arr_spec zero arr r0 r1 mpv) r0 r1
       (masked_fun zero (resized_fun H W r0 r1 (negb (mpv =? 0)) g) (resized_fun H W r0 r1 zero f))
       (resized_fun H W r0 r1 (negb (mpv =? 0)) g).
   Proof.
@@ -93,7 +89,7 @@ Section Arr.
   (* MAIN 2: Array2D.resized_from is the centred crop / embedding of values and mask, masked entries zeroed *)
   Lemma array_resized_is_spec (arr : arr2d B) H W r0 r1 mpv :
     properA H W arr -> 0 <= r0 -> 0 <= r1 ->
-    array_resized_from zero arr (r0, r1) mpv = Ok (resized_arr_spec arr r0 r1 mpv).
+    array_resized_from zero arr (r0, r1) mpv = Ok (resized_arr_spec zero arr r0 r1 mpv).
   Proof.
     intros HA Hr0 Hr1. pose proof (properA_entries _ _ _ HA) as HE. destruct HA as (_ & _ & HP).
     destruct (array_resized_entries arr H W _ _ r0 r1 mpv HE HP Hr0 Hr1) as (out & -> & HO). f_equal.
@@ -103,7 +99,7 @@ Section Arr.
   (* Array2D.padded_before_convolution_from *)
   Lemma padded_is_spec (arr : arr2d B) H W k0 k1 mpv :
     properA H W arr -> 1 <= k0 -> 1 <= k1 ->
-    padded_before_convolution_from zero arr (k0, k1) mpv = Ok (resized_arr_spec arr (H + (k0 - 1)) (W + (k1 - 1)) mpv).
+    padded_before_convolution_from zero arr (k0, k1) mpv = Ok (resized_arr_spec zero arr (H + (k0 - 1)) (W + (k1 - 1)) mpv).
   Proof.
     intros HA Hk0 Hk1. pose proof (properA_entries _ _ _ HA) as [_ HM]. pose proof HA as (HB & _ & HP).
     pose proof (rectb_W_nonneg _ _ _ HB HP) as HW.
@@ -160,7 +156,7 @@ Section Arr.
   (* trimming an odd kernel's border = resizing to the smaller shape (the centred crop) *)
   Lemma trimmed_is_spec (arr : arr2d B) H W k0 k1 :
     properA H W arr -> Z.odd k0 = true -> Z.odd k1 = true -> 1 <= k0 -> 1 <= k1 -> k0 - 1 < H -> k1 - 1 <= W ->
-    trimmed_after_convolution_from zero arr (k0, k1) = Ok (resized_arr_spec arr (H - (k0 - 1)) (W - (k1 - 1)) 0).
+    trimmed_after_convolution_from zero arr (k0, k1) = Ok (resized_arr_spec zero arr (H - (k0 - 1)) (W - (k1 - 1)) 0).
   Proof.
     intros HA O0 O1 Hk0 Hk1 HH HW. pose proof (properA_entries _ _ _ HA) as HE.
     destruct (trimmed_entries arr H W _ _ k0 k1 HE O0 O1 Hk0 Hk1 HH HW) as (out & -> & HO). f_equal.
@@ -177,16 +173,14 @@ Section Arr.
     - intros i j Hi Hj. rewrite SH by assumption. reflexivity.
   Qed.
 
-  (* what an Array2D holds: masked entries are zero *)
-  Definition normal_arr (arr : arr2d B) : arr2d B := (zip_mask zero (fst arr) (snd arr), snd arr).
-  Lemma normal_arr_entries arr H W f g : EntriesA arr H W f g -> EntriesA (normal_arr arr) H W (masked_fun zero g f) g.
+  Lemma normal_arr_entries arr H W f g : EntriesA arr H W f g -> EntriesA (normal_arr zero arr) H W (masked_fun zero g f) g.
   Proof. intros [HF HG]. split; cbn [fst snd]; [now apply zip_mask_entries | assumption]. Qed.
 
   (* MAIN 3: padding for an odd kernel then trimming for the same kernel is the identity *)
   Lemma pad_then_trim_id (arr : arr2d B) H W k0 k1 mpv :
     properA H W arr -> Z.odd k0 = true -> Z.odd k1 = true -> 1 <= k0 -> 1 <= k1 ->
     bind (padded_before_convolution_from zero arr (k0, k1) mpv) (fun p => trimmed_after_convolution_from zero p (k0, k1))
-    = Ok (normal_arr arr).
+    = Ok (normal_arr zero arr).
   Proof.
     intros HA O0 O1 Hk0 Hk1. pose proof (properA_entries _ _ _ HA) as HE. pose proof HA as (HB & _ & HP).
     pose proof (rectb_W_nonneg _ _ _ HB HP) as HW.
@@ -211,7 +205,7 @@ Section Arr.
   Lemma enlarge_then_shrink_id (arr : arr2d B) H W r0 r1 mpv :
     properA H W arr -> H <= r0 -> W <= r1 ->
     bind (array_resized_from zero arr (r0, r1) mpv) (fun p => array_resized_from zero p (shape2 (snd arr)) mpv)
-    = Ok (normal_arr arr).
+    = Ok (normal_arr zero arr).
   Proof.
     intros HA Hr0 Hr1. pose proof (properA_entries _ _ _ HA) as HE. pose proof HA as (HB & _ & HP).
     pose proof (rectb_W_nonneg _ _ _ HB HP) as HW. pose proof HE as [_ HM].
